@@ -436,7 +436,7 @@ func ProductMsgs(maxLen int, f func(*Msg)) (n int) {
 		{{Key: "a", Value: "b\\c; d\r\n", Form: 2}},
 		{{Key: "k", Form: 0}, {Key: "e", Form: 1}, {Key: "x/y", Value: "1=2", Form: 2}}}
 	type src struct {
-		kind          int
+		kind    int
 		n, u, h string
 	}
 	srcs := []src{{0, "", "", ""}, {1, "", "", "irc.srv.org"}, {2, "nick", "u!s", "ho.st"}, {3, "nick", "", ""}, {4, "nick", "", "ho.st"}}
